@@ -1,4 +1,4 @@
-"""C19 -- collaborative_call_once state word and enumerable_thread_specific hashing/claiming."""
+"""C19 -- collaborative_call_once (state word, winner body, runner) and enumerable_thread_specific / combinable (table_lookup as a whole, elements, combine, TLS front end, clear)."""
 import os
 import sys
 import re
@@ -24,7 +24,7 @@ def extract(ctx):
         s = slice_block(ETS, sig, within=W)
         sliced.append('%s:%d ets_base::array::%s' % (ETS, s.line, name))
         t = rw.sub(s.text, r'std::size_t (\w+)\((.*?)\) const', lambda m: 'static size_t array_%s(const struct ets_array* self%s)' % (m.group(1), (', ' + m.group(2).strip().replace('std::', '')) if m.group(2).strip() else ''), 1, 1, name='sig')
-        t = rw.sub(t, r'(?<![\w.>])lg_size\b', 'self->lg_size', 0, name='field')
+        t = rw.sub(t, r'(?<![\w.>])lg_size\b', 'ARR_LG(self)', 0, name='field -> accessor')
         t = rw.sub(t, r'(?<![\w.>_])size\(\)', 'array_size(self)', 0, name='method')
         t = rw.fcasts(t, ['std::size_t'])
         t = rw.std(t)
@@ -43,11 +43,13 @@ def extract(ctx):
     # the sizing statements of table_lookup
     s = slice_block(ETS, r'void\* ets_base<ETS_key_type>::table_lookup\( bool& exists \)')
     sliced.append('%s:%d ets_base::table_lookup (sizing statements)' % (ETS, s.line))
-    m = re.search(r'if\( !r \|\| c > r->size\(\)/2 \) \{\s*(std::size_t s = r \? r->lg_size : 2;\s*while\( c > std::size_t\(1\)<<\(s-1\) \) \+\+s;)', s.text)
+    # the two statements in front of `array* a = allocate(s);` (their expressions are NOT pinned: a changed start value / loop condition is decided by the obligations)
+    m = re.search(r'\{\s*(std::size_t s = [^;{}]*;\s*while\([^;{}]*\)\s*\+\+s;)\s*array\* a = allocate\(s\);', s.text)
     if not m:
         raise ExtractionBreak('table_lookup: sizing statements changed')
     t = 'static size_t ets_new_lg_size(const struct ets_array* r, size_t c) {\n    ' + m.group(1) + '\n    return s;\n}'
     t = rw.sub(t, r'r->size\(\)', 'array_size(r)', 0, name='method')
+    t = _accessors(rw, t)
     t = rw.fcasts(t, ['std::size_t'])
     t = rw.std(t)
     t = tag_loops(t, 'sizing', rw, expect=1)
@@ -81,14 +83,38 @@ def extract(ctx):
     sliced.append('%s:%d collaborative_once_flag::do_collaborative_call_once' % (CO, s.line))
     t = s.text
     t = rw.sub(t, r'void do_collaborative_call_once\(Fn&& f\)', 'static void flag_do_collaborative_call_once(struct flag* self)', 1, 1, name='sig (the functor only reaches the run_once stub)')
-    t = rw.sub(t, r'(?s)runner\.run_once\(\[&\] \{.*?\n                \}\);', 'STUB_run_once(self, &runner);', 1, 1, name='run_once + nested lambdas (try_call / on_exception) -> contract stub that calls the sliced set_completion_state')
+    # the lambda handed to run_once (the winner's task body) becomes a function of its own; run_once itself is job once.run_once
+    lm = re.search(r'(?s)runner\.run_once\(\[&\] \{(.*?)\n                \}\);', t)
+    if not lm:
+        raise ExtractionBreak('do_collaborative_call_once: the lambda handed to runner.run_once was not found')
+    wb = 'static void once_winner_body(struct flag* self) {' + lm.group(1) + '\n}'
+    wb = rw.sub(wb, r'(?s)try_call\(\[&\] \{(.*?)\}\)\.on_exception\(\[&\] \{(.*?)\}\);', r'{ \1 if (EXC_PENDING()) { { \2 } EXC_RETHROW(); } }', 0,
+                name='try_call(body).on_exception(handler) -> { body; if (exception pending) { handler; rethrow } }')
+    wb = rw.sub(wb, r'std::forward<Fn>\(f\)\(\);', 'STUB_user_function();', 0, name='user functor -> stub (may throw)')
+    wb = rw.sub(wb, r'(?<![\w.>])set_completion_state\(', 'flag_set_completion_state(self, ', 0, name='method')
+    wb = rw.sub(wb, r'runner\.to_bits\(\)', 'RUNNER_BITS(&runner)', 0, name='method')
+    wb = rw.sub(wb, r'state::(\w+)', r'\1', 0, name='enum scope')
+    wb = cxx2c.strip_comments(wb)
+    t = rw.sub(t, r'(?s)runner\.run_once\(\[&\] \{.*?\n                \}\);', 'STUB_run_once(self, &runner); EXC_PROPAGATE();', 1, 1, name='run_once(lambda) -> stub that runs the extracted lambda body (once_winner_body); exception edge made explicit')
+    t = rw.sub(t, r'\}\s*$', 'RUNNER_DTOR(&runner);\n}', 1, 1, name='destructor of the local runner at scope exit')
     t = rw.sub(t, r'collaborative_once_runner runner;', 'struct runner runner; RUNNER_INIT(&runner);', 1, 1, name='ctor')
     t = rw.sub(t, r'runner\.to_bits\(\)', 'RUNNER_BITS(&runner)', 1, name='method')
     t = rw.sub(t, r'auto max_value = ', 'uintptr_t max_value = ', 1, 1, name='auto')
     t = rw.sub(t, r'spin_wait_while_eq\(m_state, max_value\)', 'SPIN_WAIT_WHILE_EQ(self->m_state, max_value)', 1, 1, name='spin-wait')
-    t = rw.sub(t, r'(?s)if \(auto shared_runner = collaborative_once_runner::from_bits\(expected & ~collaborative_once_references_mask\)\) \{\s*collaborative_once_runner::lifetime_guard guard\{\*shared_runner\};\s*m_state\.fetch_sub\(1\);(.*?)shared_runner->assist\(\);\s*\}',
-               r'{ uintptr_t shared_bits = FROM_BITS(expected & ~collaborative_once_references_mask); if (shared_bits) { LIFETIME_GUARD_ENTER(shared_bits); ATOMIC_FETCH_SUB(self->m_state, 1);\1STUB_assist(shared_bits); LIFETIME_GUARD_LEAVE(shared_bits); } }', 1, 1,
-               name='decl-in-condition + RAII guard -> explicit enter/leave')
+    # `if (auto shared_runner = from_bits(E)) { BODY }`: declaration in the condition -> block; the RAII lifetime_guard declared in BODY -> explicit enter at the declaration and
+    # leave at the end of BODY (only if the declaration is there); the statements of BODY and their order are taken as they are
+    gm = re.search(r'(?s)if \(auto shared_runner = collaborative_once_runner::from_bits\((.*?)\)\) \{(.*?)\n                \}', t)
+    if not gm:
+        raise ExtractionBreak('do_collaborative_call_once: the helper branch `if (auto shared_runner = from_bits(...)) {...}` was not found')
+    gbody = gm.group(2)
+    has_guard = len(re.findall(r'collaborative_once_runner::lifetime_guard guard\{\*shared_runner\};', gbody))
+    gbody = rw.sub(gbody, r'collaborative_once_runner::lifetime_guard guard\{\*shared_runner\};', 'LIFETIME_GUARD_ENTER(shared_bits);', 0, name='RAII guard declaration -> explicit enter')
+    gbody = rw.sub(gbody, r'shared_runner->assist\(\);', 'STUB_assist(shared_bits);', 0, name='assist -> stub (job once.assist)')
+    if has_guard:
+        gbody += ' LIFETIME_GUARD_LEAVE(shared_bits);'
+    rw.fired['RAII guard -> leave at scope exit'] = has_guard
+    t = t[:gm.start()] + '{ uintptr_t shared_bits = FROM_BITS(' + gm.group(1) + '); if (shared_bits) {' + gbody + ' } }' + t[gm.end():]
+    rw.fired['decl-in-condition -> block'] = 1
     t = rw.sub(t, r'(?<![\w.>])m_state\.', 'self->m_state.', 3, name='field')
     t = rw.atomics(t, ['m_state'], 3)
     t = rw.sub(t, r'state::(\w+)', r'\1', 3, name='enum scope')
@@ -98,10 +124,367 @@ def extract(ctx):
     t = rw.std(t)
     t = rw.number_sites(t, 'once', by_kind=True)
     t = tag_loops(t, 'once', rw, expect=2)
+    out.append(wb)
     out.append(t)
+    # lifetime_guard constructor / destructor
+    WG = r'class lifetime_guard : no_copy \{'
+    for name, sig, csig in (('ctor', r'lifetime_guard\(collaborative_once_runner& r\) : m_runner\(r\) \{', 'static void lifetime_guard_ctor(struct runner* m_runner) {'),
+                            ('dtor', r'~lifetime_guard\(\) \{', 'static void lifetime_guard_dtor(struct runner* m_runner) {')):
+        s = slice_block(CO, sig, within=WG)
+        sliced.append('%s:%d collaborative_once_runner::lifetime_guard %s' % (CO, s.line, name))
+        g = rw.sub(s.text, sig, csig, 1, 1, name='sig (the reference member m_runner is the parameter)')
+        g = rw.atomics(g, ['m_ref_count'], 0)
+        g = rw.sub(g, r'\bm_runner\.', 'm_runner->', 0, name='reference -> pointer')
+        g = rw.number_sites(g, 'guard_' + name, by_kind=True)
+        out.insert(0, g)
     common.write(ctx, 'once.inc', '\n'.join(out) + '\n')
     fired['call_once'] = rw.fired
+    extract_lookup(ctx, sliced, fired)
+    extract_elems(ctx, sliced, fired)
+    extract_runner(ctx, sliced, fired)
+    extract_copy(ctx, sliced, fired)
+    closed_world(fired)
     return sliced, fired
+
+
+def _accessors(rw, t):
+    """fields of ets_base::array -> lvalue accessors (the harness decides how tables are represented)"""
+    t = rw.sub(t, r'\b(\w+)->lg_size\b', r'ARR_LG(\1)', 0, name='field -> accessor')
+    t = rw.sub(t, r'\b(\w+)->next\b', r'ARR_NEXT(\1)', 0, name='field -> accessor')
+    return t
+
+
+def _types(rw, t):
+    """type names of ets_base -> C structs"""
+    t = rw.sub(t, r'\barray\s*\*', 'struct ets_array*', 0, name='type array*')
+    t = rw.sub(t, r'sizeof\(array\)', 'sizeof(struct ets_array)', 0, name='sizeof(array)')
+    t = rw.sub(t, r'sizeof\(slot\)', 'sizeof(struct ets_slot)', 0, name='sizeof(slot)')
+    return t
+
+
+def extract_lookup(ctx, sliced, fired):
+    """ets_base::table_lookup as a whole + allocate / deallocate / array::at / table_clear and the TLS front end (ets_key_per_instance)."""
+    rw = Rewriter('ets_lookup')
+    out = []
+    W = r'class ets_base : detail::no_copy \{'
+    # ---- array::at ----
+    s = slice_block(ETS, r'slot& at\( std::size_t k \)', within=r'struct array \{')
+    sliced.append('%s:%d ets_base::array::at' % (ETS, s.line))
+    t = rw.sub(s.text, r'slot& at\( std::size_t k \)', 'static struct ets_slot* array_at(struct ets_array* self, size_t k)', 1, 1, name='sig (reference return -> pointer)')
+    t = rw.sub(t, r'return (.*);', r'return &(\1);', 1, 1, name='reference return -> address of the lvalue')
+    t = rw.casts(t, 2)
+    t = rw.sub(t, r'\(slot\*\)', '(struct ets_slot*)', 1, 1, name='type slot*')
+    t = rw.sub(t, r'\bthis\b', 'self', 1, 1, name='this')
+    out.append(t)
+    # ---- allocate / deallocate ----
+    s = slice_block(ETS, r'array\* allocate\( std::size_t lg_size \)', within=W)
+    sliced.append('%s:%d ets_base::allocate' % (ETS, s.line))
+    t = rw.sub(s.text, r'array\* allocate\( std::size_t lg_size \)', 'static struct ets_array* ets_allocate(struct ets_base* self, size_t lg_size)', 1, 1, name='sig')
+    t = rw.casts(t, 0)
+    t = _types(rw, t)
+    t = rw.sub(t, r'\bcreate_array\(', 'STUB_create_array(self, ', 0, name='virtual callee stub (allocator; may throw)')
+    t = rw.sub(t, r'(STUB_create_array\([^;]*;)', r'\1 EXC_PROPAGATE(NULL);', 0, name='exception edge made explicit')
+    t = rw.sub(t, r'std::memset\(', 'STUB_memset(', 0, name='memset -> recording stub')
+    t = _accessors(rw, t)
+    t = rw.fcasts(t, ['std::size_t'])
+    t = rw.std(t)
+    out.append(t)
+    s = slice_block(ETS, r'void deallocate\(array\* a\)', within=W)
+    sliced.append('%s:%d ets_base::deallocate' % (ETS, s.line))
+    t = rw.sub(s.text, r'void deallocate\(array\* a\)', 'static void ets_deallocate(struct ets_base* self, struct ets_array* a)', 1, 1, name='sig')
+    t = rw.casts(t, 0)
+    t = _types(rw, t)
+    t = rw.sub(t, r'\bfree_array\(', 'STUB_free_array(self, ', 0, name='virtual callee stub')
+    t = _accessors(rw, t)
+    t = rw.fcasts(t, ['std::size_t'])
+    t = rw.std(t)
+    out.append(t)
+    common.write(ctx, 'layout.inc', '\n'.join(out) + '\n')
+    # ---- table_lookup ----
+    s = slice_block(ETS, r'void\* ets_base<ETS_key_type>::table_lookup\( bool& exists \)')
+    sliced.append('%s:%d ets_base::table_lookup' % (ETS, s.line))
+    t = rw.sub(s.text, r'void\* ets_base<ETS_key_type>::table_lookup\( bool& exists \)', 'static void* ets_table_lookup(struct ets_base* self, bool* exists)', 1, 1, name='sig (reference parameter -> pointer)')
+    t = rw.sub(t, r'\bexists = ', '*exists = ', 0, name='ref-param store')
+    t = rw.sub(t, r'ets_key_selector<ETS_key_type>::current_key\(\)', 'STUB_current_key()', 1, 1, name='callee stub (thread id)')
+    t = rw.sub(t, r'std::hash<key_type>\{\}\(k\)', 'STUB_hash(k)', 1, 1, name='callee stub (std::hash)')
+    t = rw.nop_calls(t, [r'\bcall_itt_notify'], 0)
+    t = rw.asserts(t, 0)
+    t = rw.sub(t, r'key_type\(\)', '((key_type)0)', 0, name='value-init')
+    t = rw.sub(t, r'slot& s = (\w+)->at\(i\);', r'struct ets_slot* s = STUB_at(\1, i);', 2, name='slot reference -> pointer; array::at -> slot oracle')
+    t = rw.sub(t, r'\bs\.(empty|match|claim)\(\s*', lambda m: 'slot_%s(s%s' % (m.group(1), '' if m.group(1) == 'empty' else ', '), 0, name='slot method')
+    t = rw.sub(t, r'\bs\.ptr\b', 's->ptr', 0, name='slot reference -> pointer')
+    t = rw.sub(t, r'\b(\w+)->(mask|size)\(\)', r'array_\2(\1)', 0, name='array method')
+    t = rw.sub(t, r'\b(\w+)->start\(', r'STUB_start(\1, ', 0, name='array::start -> contract stub (a pure function of table and hash with a value below size(): job ets.probe_index)')
+    t = _types(rw, t)
+    t = rw.sub(t, r'(?<![\w.>])(my_root|my_count)\b', r'self->\1', 0, name='field')
+    t = rw.atomics(t, ['my_root', 'my_count'], 0)
+    t = rw.sub(t, r'found = create_local\(\);', 'found = STUB_create_local(self); EXC_PROPAGATE(NULL);', 0, name='virtual callee stub (initialiser; may throw: exception edge made explicit)')
+    t = rw.sub(t, r'= allocate\(s\);', '= ets_allocate(self, s); EXC_PROPAGATE(NULL);', 0, name='method (may throw: exception edge made explicit)')
+    t = rw.sub(t, r'\bdeallocate\(a\);', 'ets_deallocate(self, a);', 0, name='method')
+    t = _accessors(rw, t)
+    t = rw.sub(t, r'\binsert:', 'insert: ;', 1, 1, name='label in front of a declaration gets an empty statement (C grammar)')
+    t = rw.fcasts(t, ['std::size_t'])
+    t = rw.std(t)
+    t = rw.number_sites(t, 'lookup', by_kind=True)
+    t = tag_loops(t, 'lookup', rw)
+    out.append(t)
+    common.write(ctx, 'lookup.inc', '\n'.join(out) + '\n')
+    fired['ets_lookup'] = rw.fired
+
+
+def _iter_ops(rw, t):
+    """operators of enumerable_thread_specific_iterator on the local iterator `ci`, begin() / end() -> the sliced functions"""
+    t = rw.sub(t, r'\b(?:const_)?iterator ci = ', 'struct ets_iter ci = ', 0, name='iterator type')
+    t = rw.sub(t, r'(?<![\w.>])begin\(\)', 'ets_begin(self)', 0, name='method')
+    t = rw.sub(t, r'(?<![\w.>])end\(\)', 'ets_end(self)', 0, name='method')
+    t = rw.sub(t, r'\+\+ci\b', '(*ets_iter_preinc(&ci))', 0, name='iterator operator++ -> function')
+    t = rw.sub(t, r'(?<![\w)])\*ci\b', '(*ets_iter_deref(&ci))', 0, name='iterator operator* -> function')
+    t = rw.sub(t, r'(\(\*ets_iter_preinc\(&ci\)\)|\bci|ets_begin\(self\)) (==|!=) (ets_end\(self\))', lambda m: 'ets_iter_%s(%s, %s)' % ('eq' if m.group(2) == '==' else 'ne', m.group(1), m.group(3)), 0, name='iterator operator== / != -> function')
+    return t
+
+
+def extract_elems(ctx, sliced, fired):
+    """ets_element, create_local, the iterator, begin/end, combine / combine_each, local(), the TLS front end and table_clear."""
+    rw = Rewriter('ets_elems')
+    out = []
+    WE = r'struct ets_element \{'
+    for name, sig, csig in (('ctor', r'ets_element\(\) \{', 'static void ets_element_ctor(struct ets_element* self) {'),
+                            ('value', r'U\* value\(\) \{', 'static T* ets_element_value(struct ets_element* self) {'),
+                            ('value_committed', r'U\* value_committed\(\) \{', 'static T* ets_element_value_committed(struct ets_element* self) {')):
+        s = slice_block(ETS, sig, within=WE)
+        sliced.append('%s:%d ets_element::%s' % (ETS, s.line, name))
+        t = rw.sub(s.text, sig, csig, 1, 1, name='sig')
+        t = rw.sub(t, r'(?<![\w.>])is_built\b', 'self->is_built', 0, name='field')
+        t = rw.sub(t, r'(?<![\w.>])my_space\.begin\(\)', 'SPACE_BEGIN(self->my_space)', 0, name='aligned_space::begin -> address of the storage')
+        out.append(t)
+    WC = r'class enumerable_thread_specific: ets_base<ETS_key_type> \{'
+    s = slice_block(ETS, r'void\* create_local\(\) override \{', within=WC)
+    sliced.append('%s:%d enumerable_thread_specific::create_local' % (ETS, s.line))
+    t = rw.sub(s.text, r'void\* create_local\(\) override \{', 'static void* ets_create_local(struct ets* self) {', 1, 1, name='sig')
+    t = rw.sub(t, r'padded_element& lref = \*my_locals\.grow_by\(1\);', 'struct ets_element* lref = STUB_grow_by(&self->my_locals, 1);', 0, name='reference -> pointer; concurrent_vector::grow_by -> stub (C11)')
+    t = rw.sub(t, r'my_construct_callback->construct\(lref\.value\(\)\);', 'STUB_construct(self, ets_element_value(lref)); EXC_PROPAGATE(NULL);', 0, name='initialiser callback -> stub (may throw: exception edge made explicit)')
+    t = rw.sub(t, r'lref\.(value|value_committed)\(\)', r'ets_element_\1(lref)', 0, name='method')
+    out.append(t)
+    # ---- iterator ----
+    WI = r'class enumerable_thread_specific_iterator\s*\{'
+    s = slice_block(ETS, r'enumerable_thread_specific_iterator\( const Container &container, typename Container::size_type index \) :', within=WI, ctor=True)
+    sliced.append('%s:%d enumerable_thread_specific_iterator ctor' % (ETS, s.line))
+    m = re.search(r'(?s):\s*my_container\(&const_cast<Container &>\(container\)\), my_index\(index\), my_value\(nullptr\) \{\}', s.text)
+    if not m:
+        raise ExtractionBreak('iterator constructor initialiser list changed')
+    out.append('static struct ets_iter ets_iter_make(struct cvec* container, size_t index) { struct ets_iter it; it.my_container = container; it.my_index = index; it.my_value = NULL; return it; }   /* init list, declared order */')
+    rw.fired['ctor-init-list->assignments'] = 3
+    for name, sig, csig in (('operator*', r'Value& operator\*\(\) const \{', 'static T* ets_iter_deref(struct ets_iter* self) {'),
+                            ('operator++', r'enumerable_thread_specific_iterator& operator\+\+\(\) \{', 'static struct ets_iter* ets_iter_preinc(struct ets_iter* self) {')):
+        s = slice_block(ETS, sig, within=WI)
+        sliced.append('%s:%d enumerable_thread_specific_iterator::%s' % (ETS, s.line, name))
+        t = rw.sub(s.text, sig, csig, 1, 1, name='sig (reference return -> pointer)')
+        t = rw.sub(t, r'Value\*', 'T*', 0, name='bind-template(Value:=T)')
+        t = rw.sub(t, r'\(\*my_container\)\[my_index\]\.value\(\)', 'ets_element_value(STUB_cvec_at(my_container, my_index))', 0, name='concurrent_vector::operator[] -> stub; method')
+        t = rw.sub(t, r'return \*value;', 'return value;', 0, name='reference return -> pointer')
+        t = rw.sub(t, r'return \*this;', 'return self;', 0, name='reference return -> pointer')
+        t = rw.sub(t, r'(?<![\w.>])(my_container|my_index|my_value)\b', r'self->\1', 0, name='field')
+        t = rw.asserts(t, 0)
+        t = rw.std(t)
+        out.append(t)
+    for name, sig, csig in (('operator==', r'bool operator==\( const enumerable_thread_specific_iterator<Container, T>& i,\s*const enumerable_thread_specific_iterator<Container, U>& j \) \{', 'static bool ets_iter_eq(struct ets_iter i, struct ets_iter j) {'),
+                            ('operator!=', r'bool operator!=\( const enumerable_thread_specific_iterator<Container,T>& i,\s*const enumerable_thread_specific_iterator<Container,U>& j \) \{', 'static bool ets_iter_ne(struct ets_iter i, struct ets_iter j) {')):
+        s = slice_block(ETS, sig)
+        sliced.append('%s:%d %s(iterator, iterator)' % (ETS, s.line, name))
+        t = rw.sub(s.text, sig, csig, 1, 1, name='sig (const reference -> value)')
+        t = rw.sub(t, r'\(i==j\)', 'ets_iter_eq(i, j)', 0, name='operator call')
+        out.append(t)
+    # ---- begin / end / combine / combine_each / local ----
+    for name, sig, csig in (('begin', r'iterator begin\(\) \{', 'static struct ets_iter ets_begin(struct ets* self) {'), ('end', r'iterator end\(\) \{', 'static struct ets_iter ets_end(struct ets* self) {')):
+        s = slice_block(ETS, sig, within=WC)
+        sliced.append('%s:%d enumerable_thread_specific::%s' % (ETS, s.line, name))
+        t = rw.sub(s.text, sig, csig, 1, 1, name='sig')
+        t = rw.sub(t, r'iterator\(\s*my_locals, (.*?)\s*\)', r'ets_iter_make(&self->my_locals, \1)', 0, name='constructor call')
+        t = rw.sub(t, r'my_locals\.size\(\)', 'STUB_cvec_size(&self->my_locals)', 0, name='concurrent_vector::size -> stub')
+        out.append(t)
+    s = slice_block(ETS, r'void combine_each\(CombineFunc f_combine\) \{', within=WC)
+    sliced.append('%s:%d enumerable_thread_specific::combine_each' % (ETS, s.line))
+    t = rw.sub(s.text, r'void combine_each\(CombineFunc f_combine\) \{', 'static void ets_combine_each(struct ets* self) {', 1, 1, name='sig (the functor only reaches the f_combine stub)')
+    t = _iter_ops(rw, t)
+    t = rw.sub(t, r'f_combine\( (.*?) \);', r'STUB_f_each(\1);', 0, name='user functor -> stub')
+    t = tag_loops(t, 'each', rw)
+    out.append(t)
+    s = slice_block(ETS, r'T combine\(CombineFunc f_combine\) \{', within=WC)
+    sliced.append('%s:%d enumerable_thread_specific::combine' % (ETS, s.line))
+    t = rw.sub(s.text, r'T combine\(CombineFunc f_combine\) \{', 'static T ets_combine(struct ets* self) {', 1, 1, name='sig (the functor only reaches the f_combine stub)')
+    t = rw.sub(t, r'ets_element<T> location;', 'struct ets_element location; ets_element_ctor(&location);', 0, name='constructor call (the destructor at scope exit is dropped)')
+    t = rw.sub(t, r'my_construct_callback->construct\(location\.value\(\)\);', 'STUB_construct(self, ets_element_value(&location));', 0, name='initialiser callback -> stub')
+    t = rw.sub(t, r'\*location\.(value|value_committed)\(\)', r'*ets_element_\1(&location)', 0, name='method')
+    t = _iter_ops(rw, t)
+    t = rw.sub(t, r'f_combine\( (.*?), (.*?) \);', r'STUB_f_combine(\1, \2);', 0, name='user functor -> stub')
+    t = tag_loops(t, 'combine', rw)
+    out.append(t)
+    # ---- the TLS front end, local(bool&), local() ----
+    WT = r'class ets_base<ets_key_per_instance>: public ets_base<ets_no_key> \{'
+    s = slice_block(ETS, r'void\* table_lookup\( bool& exists \) \{', within=WT)
+    sliced.append('%s:%d ets_base<ets_key_per_instance>::table_lookup' % (ETS, s.line))
+    t = rw.sub(s.text, r'void\* table_lookup\( bool& exists \) \{', 'static void* tls_table_lookup(struct ets* self, bool* exists) {', 1, 1, name='sig (reference parameter -> pointer)')
+    t = rw.sub(t, r'\bexists\s*=\s*true', '*exists = true', 0, name='ref-param store')
+    t = rw.sub(t, r'\bget_tls\(\)', 'STUB_get_tls(self)', 0, name='pthread_getspecific wrapper -> stub')
+    t = rw.sub(t, r'\bset_tls\(', 'STUB_set_tls(self, ', 0, name='pthread_setspecific wrapper -> stub')
+    t = rw.sub(t, r'super::table_lookup\(exists\)', 'STUB_super_table_lookup(self, exists)', 0, name='base-class table_lookup -> contract stub (jobs ets.lookup.*)')
+    out.append(t)
+    s = slice_block(ETS, r'reference local\(bool& exists\)\s*\{', within=WC)
+    sliced.append('%s:%d enumerable_thread_specific::local(bool&)' % (ETS, s.line))
+    t = rw.sub(s.text, r'reference local\(bool& exists\)\s*\{', 'static T* ets_local_exists(struct ets* self, bool* exists) {', 1, 1, name='sig (reference -> pointer)')
+    t = rw.sub(t, r'this->table_lookup\(exists\)', 'tls_table_lookup(self, exists)', 0, name='method (ets_key_per_instance instantiation)')
+    t = rw.sub(t, r'return \*\(T\*\)ptr;', 'return (T*)ptr;', 0, name='reference return -> pointer')
+    out.append(t)
+    s = slice_block(ETS, r'reference local\(\) \{', within=WC)
+    sliced.append('%s:%d enumerable_thread_specific::local()' % (ETS, s.line))
+    t = rw.sub(s.text, r'reference local\(\) \{', 'static T* ets_local(struct ets* self) {', 1, 1, name='sig (reference -> pointer)')
+    t = rw.sub(t, r'return local\(exists\);', 'return ets_local_exists(self, &exists);', 0, name='method; reference argument -> address')
+    out.append(t)
+    common.write(ctx, 'elems.inc', '\n'.join(out) + '\n')
+    # ---- table_clear (base) ----
+    out = []
+    W = r'class ets_base : detail::no_copy \{'
+    s = slice_block(ETS, r'void deallocate\(array\* a\)', within=W)
+    t = rw.sub(s.text, r'void deallocate\(array\* a\)', 'static void ets_deallocate(struct ets_base* self, struct ets_array* a)', 1, 1, name='sig')
+    t = rw.casts(t, 0)
+    t = _types(rw, t)
+    t = rw.sub(t, r'\bfree_array\(', 'STUB_free_array(self, ', 0, name='virtual callee stub')
+    t = _accessors(rw, t)
+    t = rw.fcasts(t, ['std::size_t'])
+    t = rw.std(t)
+    out.append(t)
+    s = slice_block(ETS, r'void ets_base<ETS_key_type>::table_clear\(\) \{')
+    sliced.append('%s:%d ets_base::table_clear' % (ETS, s.line))
+    t = rw.sub(s.text, r'void ets_base<ETS_key_type>::table_clear\(\) \{', 'static void ets_table_clear(struct ets_base* self) {', 1, 1, name='sig')
+    t = rw.sub(t, r'while \( array\* r = ([^;{}]*?) \) \{', r'struct ets_array* r; while ( (r = \1) ) {', 1, 1, name='declaration in the loop condition -> declaration + assignment in the condition')
+    t = rw.sub(t, r'(?<![\w.>])(my_root|my_count)\b', r'self->\1', 0, name='field')
+    t = rw.atomics(t, ['my_root', 'my_count'], 0)
+    t = rw.sub(t, r'\bdeallocate\(r\);', 'ets_deallocate(self, r);', 0, name='method')
+    t = _accessors(rw, t)
+    t = rw.std(t)
+    t = tag_loops(t, 'clear', rw)
+    out.append(t)
+    common.write(ctx, 'clear.inc', '\n'.join(out) + '\n')
+    fired['ets_elems'] = rw.fired
+
+
+def extract_runner(ctx, sliced, fired):
+    """collaborative_once_runner::run_once / assist / destructor and collaborative_call_stack_task::execute / cancel / finalize."""
+    rw = Rewriter('once_runner')
+    out = []
+    WT = r'class collaborative_call_stack_task : public task \{'
+    for name, sig, csig in (('finalize', r'void finalize\(\) \{', 'static void cst_finalize(struct cst* self) {'),
+                            ('execute', r'task\* execute\(d1::execution_data&\) override \{', 'static void* cst_execute(struct cst* self) {'),
+                            ('cancel', r'task\* cancel\(d1::execution_data&\) override \{', 'static void* cst_cancel(struct cst* self) {')):
+        s = slice_block(CO, sig, within=WT)
+        sliced.append('%s:%d collaborative_call_stack_task::%s' % (CO, s.line, name))
+        t = rw.sub(s.text, sig, csig, 1, 1, name='sig')
+        t = rw.sub(t, r'm_wait_ctx\.release\(\);', 'WAIT_CTX_RELEASE(self);', 0, name='wait_context::release -> ghost counter')
+        t = rw.sub(t, r'task\* res = d2::task_ptr_or_nullptr\(m_func\);', 'void* res = STUB_call_m_func(self); EXC_PROPAGATE(NULL);', 0, name='task_ptr_or_nullptr(m_func) -> call of the stored functor (may throw: exception edge made explicit)')
+        t = rw.sub(t, r'(?<![\w.>])finalize\(\);', 'cst_finalize(self);', 0, name='method')
+        t = rw.std(t)
+        out.append(t)
+    WR = r'class alignas\(max_nfs_size\) collaborative_once_runner : no_copy \{'
+    s = slice_block(CO, r'void run_once\(F&& f\) \{', within=WR)
+    sliced.append('%s:%d collaborative_once_runner::run_once' % (CO, s.line))
+    t = rw.sub(s.text, r'void run_once\(F&& f\) \{', 'static void runner_run_once(struct runner* self) {', 1, 1, name='sig (the functor only reaches the task body stub)')
+    t = rw.asserts(t, 0)
+    t = rw.sub(t, r'new\(&m_storage\) storage_t\(\);', 'STORAGE_CTOR(self);', 0, name='placement new of the arena + wait_context storage -> ghost')
+    t = rw.sub(t, r'm_storage\.m_arena\.execute\(\[&\] \{', 'ARENA_EXECUTE_BEGIN(self); {', 1, 1, name='task_arena::execute(lambda) -> begin/end markers around the lambda body')
+    t = rw.sub(t, r'isolated_execute\(\[&\] \{', 'ISOLATED_BEGIN(self); {', 1, 1, name='isolated_execute(lambda) -> begin/end markers around the lambda body')
+    t = rw.sub(t, r'(?s)task_group_context context\{\s*task_group_context::bound,\s*task_group_context::default_traits \| task_group_context::concurrent_wait \};', 'CTX_DECL_BOUND_CONCURRENT_WAIT(context);', 1, 1, name='context declaration')
+    t = rw.sub(t, r'collaborative_call_stack_task<F> t\{ std::forward<F>\(f\), m_storage\.m_wait_context \};', 'TASK_DECL(t, self);', 1, 1, name='task declaration')
+    t = rw.sub(t, r'execute_and_wait\(t, context, m_storage\.m_wait_context, context\);', 'STUB_execute_and_wait(self, &t); EXC_PROPAGATE();', 0, name='scheduler entry -> stub dispatcher (C01; may rethrow: exception edge made explicit)')
+    n = t.count('});')
+    if n != 2:
+        raise ExtractionBreak('run_once: %d lambda closers, expected 2' % n)
+    t = t.replace('});', '} ISOLATED_END(self);', 1).replace('});', '} ARENA_EXECUTE_END(self);', 1)
+    rw.fired['lambda closers -> end markers'] = rw.fired.get('lambda closers -> end markers', 0) + 2
+    t = rw.sub(t, r'(?<![\w.>])m_is_ready\b', 'self->m_is_ready', 0, name='field')
+    t = rw.atomics(t, ['m_is_ready'], 0)
+    t = rw.std(t)
+    t = rw.number_sites(t, 'run_once', by_kind=True)
+    out.append(t)
+    s = slice_block(CO, r'void assist\(\) noexcept \{', within=WR)
+    sliced.append('%s:%d collaborative_once_runner::assist' % (CO, s.line))
+    t = rw.sub(s.text, r'void assist\(\) noexcept \{', 'static void runner_assist(struct runner* self) {', 1, 1, name='sig')
+    t = rw.sub(t, r'spin_wait_while_eq\(m_is_ready, false\);', 'SPIN_WAIT_WHILE_EQ(self->m_is_ready, false);', 0, name='spin-wait')
+    t = rw.sub(t, r'm_storage\.m_arena\.execute\(\[&\] \{', 'ARENA_EXECUTE_BEGIN(self); {', 1, 1, name='task_arena::execute(lambda) -> begin/end markers around the lambda body')
+    t = rw.sub(t, r'isolated_execute\(\[&\] \{', 'ISOLATED_BEGIN(self); {', 1, 1, name='isolated_execute(lambda) -> begin/end markers around the lambda body')
+    t = rw.sub(t, r'task_group_context stub_context;', 'CTX_DECL(stub_context);', 1, 1, name='context declaration')
+    t = rw.sub(t, r'(?<![\w.>])wait\(m_storage\.m_wait_context, stub_context\);', 'STUB_wait(self);', 0, name='scheduler wait -> stub')
+    n = t.count('});')
+    if n != 2:
+        raise ExtractionBreak('assist: %d lambda closers, expected 2' % n)
+    t = t.replace('});', '} ISOLATED_END(self);', 1).replace('});', '} ARENA_EXECUTE_END(self);', 1)
+    t = rw.std(t)
+    out.append(t)
+    s = slice_block(CO, r'~collaborative_once_runner\(\) \{', within=WR)
+    sliced.append('%s:%d collaborative_once_runner::~collaborative_once_runner' % (CO, s.line))
+    t = rw.sub(s.text, r'~collaborative_once_runner\(\) \{', 'static void runner_dtor(struct runner* self) {', 1, 1, name='sig')
+    t = rw.sub(t, r'spin_wait_until_eq\(m_ref_count, 0, std::memory_order_acquire\);', 'SPIN_WAIT_UNTIL_EQ(self->m_ref_count, 0);', 0, name='spin-wait')
+    t = rw.sub(t, r'm_storage\.~storage_t\(\);', 'STORAGE_DTOR(self);', 0, name='explicit destructor call of the arena + wait_context storage -> ghost')
+    t = rw.sub(t, r'(?<![\w.>])m_is_ready\b', 'self->m_is_ready', 0, name='field')
+    t = rw.atomics(t, ['m_is_ready'], 0)
+    t = rw.std(t)
+    t = rw.number_sites(t, 'rdtor', by_kind=True)
+    out.append(t)
+    common.write(ctx, 'runner.inc', '\n'.join(out) + '\n')
+    fired['once_runner'] = rw.fired
+
+
+def extract_copy(ctx, sliced, fired):
+    """ets_base::table_elementwise_copy (copy / move construction and assignment of enumerable_thread_specific)."""
+    rw = Rewriter('ets_copy')
+    W = r'class ets_base : detail::no_copy \{'
+    s = slice_block(ETS, r'void table_elementwise_copy\( const ets_base& other,', within=W)
+    sliced.append('%s:%d ets_base::table_elementwise_copy' % (ETS, s.line))
+    t = rw.sub(s.text, r'(?s)void table_elementwise_copy\( const ets_base& other,\s*void\*\(\*add_element\)\(ets_base<E2>&, void\*\) \) \{', 'static void ets_table_elementwise_copy(struct ets_base* self, struct ets_base* other) {', 1, 1, name='sig (reference -> pointer; the callback only reaches the add_element stub)')
+    t = rw.asserts(t, 0)
+    t = rw.sub(t, r'(?<![\w.>])(my_root|my_count)\b', r'self->\1', 0, name='field')
+    t = rw.atomics(t, ['my_root', 'my_count'], 0)
+    t = rw.sub(t, r'\bother\.', 'other->', 0, name='reference -> pointer')
+    t = rw.sub(t, r'ATOMIC_LOAD\(([^()]*)\)->lg_size', r'ARR_LG(ATOMIC_LOAD(\1))', 0, name='field -> accessor')
+    t = rw.sub(t, r'slot& s1 = (\w+)->at\(i\);', r'struct ets_slot* s1 = STUB_at_src(\1, i);', 0, name='slot reference -> pointer; array::at -> source slot oracle')
+    t = rw.sub(t, r'slot& s2 = (\w+)->at\(j\);', r'struct ets_slot* s2 = STUB_at_dst(\1, j);', 0, name='slot reference -> pointer; array::at -> destination slot oracle')
+    t = rw.atomics(t, ['key'], 0, obj=r'')
+    t = rw.sub(t, r'\b(s1|s2)\.(empty|match)\(\s*', lambda m: 'slot_%s(%s%s' % (m.group(2), m.group(1), '' if m.group(2) == 'empty' else ', '), 0, name='slot method')
+    t = rw.sub(t, r'\b(s1|s2)\.(key|ptr)\b', r'\1->\2', 0, name='slot reference -> pointer')
+    t = rw.sub(t, r'add_element\(static_cast<ets_base<E2>&>\(\*this\), ', 'STUB_add_element(self, ', 0, name='callback -> stub')
+    t = rw.sub(t, r'std::hash<key_type>\{\}\(', 'STUB_hash(', 0, name='callee stub (std::hash)')
+    t = rw.sub(t, r'\b(\w+)->(mask|size)\(\)', r'array_\2(\1)', 0, name='array method')
+    t = rw.sub(t, r'\b(\w+)->start\(', r'STUB_start(\1, ', 0, name='array::start -> contract stub')
+    t = _types(rw, t)
+    t = rw.sub(t, r'= allocate\(([^;]*)\);', r'= ets_allocate(self, \1); EXC_PROPAGATE();', 0, name='method (may throw: exception edge made explicit)')
+    t = _accessors(rw, t)
+    t = rw.fcasts(t, ['std::size_t'])
+    t = rw.std(t)
+    t = tag_loops(t, 'copy', rw)
+    common.write(ctx, 'copy.inc', t + '\n')
+    fired['ets_copy'] = rw.fired
+
+
+def closed_world(fired):
+    """Rely/guarantee is sound only if every writer of the shared words is among the functions under contract: count the write sites in the two headers.
+    A new writer ends the run UNDECIDED (extraction break) instead of leaving the rely silently too weak."""
+    want = {
+        ETS: [(r'\bmy_root\.(?:store|exchange|compare_exchange_\w+|fetch_\w+)\(', 3, 'my_root: table_elementwise_copy store, table_clear store, table_lookup CAS'),
+              (r'swap_atomics_relaxed\(my_root,', 1, 'my_root: table_swap (documented as not concurrent; not under contract)'),
+              (r'(?<![\w])key\.(?:store|exchange|compare_exchange_\w+|fetch_\w+)\(', 2, 'slot key: slot::claim CAS, table_elementwise_copy store'),
+              (r'\bmy_count\.(?:store|exchange|fetch_\w+)\(|\+\+my_count\b|\bmy_count\+\+|\bmy_count\s*[-+]=', 3, 'my_count: copy store, clear store, ++ in table_lookup')],
+        CO: [(r'\bm_state\.(?:store|exchange|compare_exchange_\w+|fetch_\w+)\(', 5, 'm_state: set_completion_state CAS, winner CAS, helper CAS, helper fetch_sub, debug-only destructor store'),
+             (r'\bm_ref_count(?:\+\+|--|\.(?:store|exchange|fetch_\w+)\()', 2, 'm_ref_count: lifetime_guard ++ / --'),
+             (r'\bm_is_ready\.(?:store|exchange)\(', 1, 'm_is_ready: run_once store')],
+    }
+    out = {}
+    for rel, pats in want.items():
+        m = cxx2c.mask(load(rel))
+        for pat, n, what in pats:
+            k = len(re.findall(pat, m))
+            out[what] = k
+            if k > n:     # fewer sites (a deleted store) is decided by the obligations, not here
+                raise ExtractionBreak('closed-world scan of %s: %d write sites for "%s", the contracts cover %d' % (rel, k, what, n))
+    fired['closed_world_scan'] = out
 
 
 def build(ctx):
@@ -111,17 +494,60 @@ def build(ctx):
         Job('ets.probe_index', C, 'h_probe', route='LF', defines=['ETS'], target='ets_base::array::size/mask/start + probe step (i+1)&mask', source=ETS),
         Job('ets.sizing', C, 'h_sizing', route='LW', unwind=66, defines=['ETS'], target='ets_base::table_lookup sizing loop', source=ETS),
         Job('ets.slot_claim', C, 'h_claim', route='RG', defines=['ETS', 'SLOT'], target='ets_base::slot::claim/match/empty', source=ETS),
+        Job('ets.lookup.first', C, 'h_lookup_first', route='RG', defines=['LOOKUP', 'CASE_FIRST'], loops=True, nloops=5, timeout=600, solver='cadical', target='ets_base::table_lookup + allocate/deallocate (first access of a thread: search, create, count, grow with root race, claim)', source=ETS),
+        Job('ets.lookup.returning', C, 'h_lookup_returning', route='RG', defines=['LOOKUP', 'CASE_RETURNING'], loops=True, nloops=5, timeout=600, solver='cadical', target='ets_base::table_lookup (later access: found at top level, or found in an older table and re-inserted)', source=ETS),
+        Job('ets.lookup.fault_init', C, 'h_lookup_first', route='RG', defines=['LOOKUP', 'CASE_FIRST', 'FAULT_INIT'], loops=True, nloops=5, timeout=600, solver='cadical',
+            target='ets_base::table_lookup, fault domain: the initialiser (create_local) throws', source=ETS),
+        Job('ets.lookup.fault_array', C, 'h_lookup_first', route='RG', defines=['LOOKUP', 'CASE_FIRST', 'FAULT_ARRAY'], loops=True, nloops=5, timeout=600, solver='cadical',
+            target='ets_base::table_lookup, fault domain: the allocation of a bigger table (create_array) throws after the element was created', source=ETS),
+        Job('ets.layout', C, 'h_layout', route='LF', defines=['LAYOUT', 'LAYOUT_MAX_LG=12'],
+            target='ets_base::allocate / array::at / deallocate on real memory', source=ETS),
+        Job('ets.create_local', C, 'h_create_local', route='LF', defines=['ELEMS', 'CREATE'], target='enumerable_thread_specific::create_local + ets_element::value/value_committed', source=ETS),
+        Job('ets.create_local.fault_init', C, 'h_create_local', route='LF', defines=['ELEMS', 'CREATE', 'FAULT_INIT'], target='enumerable_thread_specific::create_local, fault domain: the initialiser throws', source=ETS),
+        Job('ets.combine_each', C, 'h_combine_each', route='LC', loops=True, nloops=1, defines=['ELEMS', 'COMBINE'], target='enumerable_thread_specific::combine_each (combinable::combine_each) + iterator ++ / * / != + begin/end', source=ETS),
+        Job('ets.combine', C, 'h_combine', route='LC', loops=True, nloops=1, defines=['ELEMS', 'COMBINE'], target='enumerable_thread_specific::combine (combinable::combine) + iterator ++ / * / == / !=', source=ETS),
+        Job('ets.tls_local', C, 'h_tls', route='LF', defines=['ELEMS', 'TLS'], target='ets_base<ets_key_per_instance>::table_lookup (TLS shortcut) + enumerable_thread_specific::local() / local(bool&)', source=ETS),
+        Job('ets.table_clear', C, 'h_clear', route='LC', loops=True, nloops=1, defines=['CLEAR'], target='ets_base::table_clear + deallocate', source=ETS),
+        Job('ets.copy', C, 'h_copy', route='LC', loops=True, nloops=3, defines=['COPY'], timeout=600, solver='cadical', target='ets_base::table_elementwise_copy (copy / move construction and assignment) + allocate', source=ETS),
         Job('once.set_completion_state', C, 'h_scs', route='RG', defines=['ONCE'], loops=True, nloops=1, target='collaborative_once_flag::set_completion_state', source=CO),
         Job('once.do_call_once', C, 'h_once', route='RG', defines=['ONCE'], loops=True, nloops=3, timeout=600, target='collaborative_once_flag::do_collaborative_call_once (winner election, helper references, return only after done)', source=CO),
+        Job('once.run_once', C, 'h_run_once', route='RG', defines=['RUNNER', 'RRUN'], target='collaborative_once_runner::run_once + collaborative_call_stack_task::execute/cancel/finalize', source=CO),
+        Job('once.assist', C, 'h_assist', route='RG', defines=['RUNNER'], target='collaborative_once_runner::assist', source=CO),
+        Job('once.runner_dtor', C, 'h_runner_dtor', route='RG', defines=['RUNNER', 'RDTOR'], target='collaborative_once_runner::~collaborative_once_runner', source=CO),
     ]
     return {
         'jobs': jobs, 'sliced': sliced, 'fired': fired,
-        'trusted': ['collaborative_once_runner::run_once/assist, lifetime_guard: stubs (run_once ends by calling the SLICED set_completion_state with done, or with uninitialized when the functor throws)', 'spin_wait_* contracts',
-                    'SC atomics', 'rely for m_state: done is absorbing; a runner word with references > 0 keeps its runner; only the winner replaces a reference-free runner word'],
-        'drops': ['nested lambdas of run_once (try_call/on_exception) -> stub', 'RAII lifetime_guard -> explicit enter/leave', 'debug-only dead state'],
-        'not_decided': ['runner lifetime (m_ref_count spin in the destructor)', 'the functor actually running once inside run_once (execute_and_wait, C01)', 'ets table_lookup as a whole (chained arrays)', 'combine / iteration',
-                        'termination of the retry loops'],
-        'assumptions': ['fewer helpers than collaborative_once_max_references at a time is enforced by the code (proved: the reference field never carries into the pointer bits)'],
+        'trusted': [
+            'SC atomics; spin_wait_* contracts (return only when the condition holds); compare_exchange_strong does not fail spuriously',
+            'rely for collaborative_once_flag::m_state: done is absorbing; a runner word with references > 0 keeps its runner; only the winner replaces a reference-free runner word',
+            'rely for the ETS table (jobs ets.lookup.*): a slot key goes 0 -> k once, by the thread whose key k is; my_root only moves to a strictly larger table linked in front of the old root, nothing below the root changes; my_count only grows '
+            '(each of these is also a guarantee checked on this thread: slot claimed by CAS from 0 only, publish obligations at lookup_CAS_1)',
+            'ets_base::array::at -> slot oracle: one scratch slot per call whose content is any content allowed by the rely and by the entry facts about this thread\'s key; that distinct (table, index) pairs are distinct slots inside the allocation and that a fresh table is empty is job ets.layout',
+            'ets_base::array::start inside table_lookup -> contract stub (pure function of table and hash, value below size(): job ets.probe_index)',
+            'fields of ets_base::array reached through the accessors ARR_NEXT / ARR_LG; tables of other threads named by their lg_size (the chain is strictly ordered by size: checked at this thread\'s own publish)',
+            'create_local / create_array / free_array (virtual) -> stubs; the allocator may throw (fault jobs), std::memset -> recording stub (real memset in ets.layout)',
+            'std::hash / current_key -> arbitrary fixed values (key != 0 is the __TBB_ASSERT of the code)',
+            'concurrent_vector my_locals -> stub (grow_by(1) appends one default-constructed element at a stable address; operator[] / size(): C11)',
+            'table_elementwise_copy (job ets.copy): source and destination slots come from oracles (source: any content, all copies of the arbitrary key carry one element; destination: knows where the arbitrary key was inserted and that its probe path is occupied); add_element callback -> stub',
+            'pthread_getspecific / pthread_setspecific wrappers -> one ghost word per (thread, instance)',
+            'base-class table_lookup inside the TLS front end -> contract stub stating what jobs ets.lookup.* decide',
+            'scheduler: execute_and_wait -> stub dispatcher that runs the sliced task execute(), on exception dispatches the same task through cancel() (task_dispatcher exception loop) and returns when the wait_context is free; '
+            'task_arena::execute / isolated_execute -> begin/end markers around the lambda bodies; wait(wait_context) -> stub',
+            'run_once inside do_collaborative_call_once -> stub that runs the lambda body sliced out of do_collaborative_call_once (once_winner_body); run_once / assist / ~runner themselves are separate jobs',
+        ],
+        'drops': ['RAII lifetime_guard -> explicit enter at the declaration / leave at the end of the block (the constructor and destructor bodies are sliced)', 'destructor of the local collaborative_once_runner -> explicit RUNNER_DTOR at the exits of do_collaborative_call_once',
+                  'try_call(body).on_exception(handler) -> { body; if (exception pending) { handler; rethrow } }; callees that may throw are followed by an explicit exception edge',
+                  'debug-only dead state', 'call_itt_notify -> RG_NOP', 'destructor of the local ets_element in combine()', 'task_group_context declarations'],
+        'not_decided': ['termination of the retry / probe loops (table_lookup: that every probe meets an empty slot follows from the decided obligation "a new key goes into a table of at least twice its count" by a counting argument that is not mechanised)',
+                        'internal_copy / internal_move / internal_swap around table_elementwise_copy (callback cloning, my_locals.reserve, swapping the concurrent_vectors), table_swap, flattened2d / segmented iterators, range()',
+                        'ets_suspend_aware keys (suspend points instead of thread ids)', 'pthread key re-creation in ets_base<ets_key_per_instance>::table_clear (stale TLS values of other threads: pthread semantics)',
+                        'data races on slot::ptr and on the element under weaker memory orders (SC assumed)', 'isolate_within_arena / task_arena::execute internals, the moonlighting slot limit (C16)',
+                        'known findings F16 (orphan element after a failed table allocation) and F17 (unconstructed element after a throwing initialiser): reported, not proved absent'],
+        'assumptions': ['closed world: the write sites of my_root / my_count / slot keys / m_state / m_ref_count / m_is_ready are counted on every run (a new writer is an extraction break); table_swap, table_clear and table_elementwise_copy are documented as not concurrent with local()',
+                        'fewer helpers than collaborative_once_max_references at a time is enforced by the code (proved: the reference field never carries into the pointer bits)',
+                        'my_count below 2^48; table sizes up to 2^63 slots (lg_size 2..63) in ets.lookup.*, up to 2^12 slots on real memory in ets.layout; containers of up to 2^12 elements in combine / combine_each',
+                        'combine / combine_each / iteration are called with every element constructed (violated after F17) and, as documented, not concurrently with local()',
+                        'table_clear is not concurrent with anything (documented)', 'the element type is trivially copyable (T = long); the combine functor is modelled by + on indicator values'],
     }
 
 
